@@ -135,18 +135,34 @@ theorem C11_partial_lookup (cfg : Cfg) (fs : FS) (ord : List (List Bytes)) (keys
   mapPartialPath_candidates fs ord cfg keys p n hn
 
 /-- The lookup is attempted exactly for keys whose mapped, prefix-stripped path has extension
-java/kt, and only when it is needed; such a path always has a file name (`unwrap` is safe). -/
+java/kt and does NOT name a file below the source dir (fix fdef150: "a path that names a file below
+the source directory is not a partial one"), and only when it is needed; such a path always has a
+file name (`unwrap` is safe). -/
 theorem C11_partial_when (cfg : Cfg) (fs : FS) (ord : List (List Bytes)) (keys : List Bytes) (key : Bytes) :
     (needed cfg fs keys = true → isPartialExt (keyPath cfg key) = true →
+      namesFile fs cfg.sourceDir (keyPath cfg key) = false →
       (∃ n, fileName (keyPath cfg key) = some n) ∧
       mappedPath cfg fs ord keys key = mapPartialPath (fileToPaths fs ord cfg keys) (keyPath cfg key)) ∧
-    ((needed cfg fs keys = false ∨ isPartialExt (keyPath cfg key) = false) →
+    ((needed cfg fs keys = false ∨ isPartialExt (keyPath cfg key) = false ∨
+        namesFile fs cfg.sourceDir (keyPath cfg key) = true) →
       mappedPath cfg fs ord keys key = keyPath cfg key) := by
   constructor
-  · intro h1 h2
-    exact ⟨fileName_of_partialExt h2, by simp [mappedPath, partialStep, h1, h2]⟩
+  · intro h1 h2 h3
+    exact ⟨fileName_of_partialExt h2, by simp [mappedPath, partialStepF, partialStep, h1, h2, h3]⟩
   · intro h
-    exact partialStep_id (h.elim Or.inl fun h => Or.inr (Or.inl h))
+    exact partialStepF_id (h.elim Or.inl fun h => h.elim (fun h => Or.inr (Or.inl h))
+      fun h => Or.inr (Or.inr (Or.inr h)))
+
+/-- A key whose path names a regular file below the source dir is handed to `get_abs_path` as it is,
+whatever the walk found (fix fdef150; before it such a key could be re-mapped to another module's
+file of the same name: Props.C12.C12_java_nested_remap_regression). -/
+theorem C11_partial_existing_file_kept (cfg : Cfg) (fs : FS) (ord : List (List Bytes)) (keys : List Bytes)
+    (key : Bytes) (h : namesFile fs cfg.sourceDir (keyPath cfg key) = true) :
+    mappedPath cfg fs ord keys key = keyPath cfg key ∧
+    resolveKeyJ cfg fs (needed cfg fs keys) (fileToPaths fs ord cfg keys) key = resolveKey cfg fs key := by
+  refine ⟨partialStepF_id (Or.inr (Or.inr (Or.inr h))), ?_⟩
+  unfold resolveKeyJ resolveKey
+  rw [partialStepF_id (Or.inr (Or.inr (Or.inr h)))]
 
 /-- Unique candidate: if, in a duplicate-free walk, exactly one non-hidden, non-ignored java/kt
 file below the source dir has the key's file name, the key's path becomes that file's
@@ -156,10 +172,11 @@ theorem C11_partial_unique_candidate (cfg : Cfg) (fs : FS) (ord : List (List Byt
     (hS : cfg.sourceDir = some s) (hres : fs.resolve s = some (S, .dir))
     (hroot : rootPruned fs s = false) (hnd : needed cfg fs keys = true)
     (hext : isPartialExt (keyPath cfg key) = true) (hn : fileName (keyPath cfg key) = some n)
+    (hnf : namesFile fs cfg.sourceDir (keyPath cfg key) = false)
     (hord : ord.Nodup) (hmem : S ++ rel ∈ ord) (hc : IsCandidate fs cfg keys S rel n)
     (huniq : ∀ rel', S ++ rel' ∈ ord → IsCandidate fs cfg keys S rel' n → rel' = rel) :
     mappedPath cfg fs ord keys key = join rel := by
-  rw [((C11_partial_when cfg fs ord keys key).1 hnd hext).2, C11_partial_lookup _ _ _ _ _ n hn,
+  rw [((C11_partial_when cfg fs ord keys key).1 hnd hext hnf).2, C11_partial_lookup _ _ _ _ _ n hn,
     candidatesFor_unique hS hres hroot n rel hord hmem hc huniq]
 
 /-- … and the key is then reported under that file: with a clean absolute source dir `/sn…`, the
@@ -173,13 +190,14 @@ theorem C11_partial_unique_reported (cfg : Cfg) (fs : FS) (ord : List (List Byte
     (hkey : (cfg.mapping.isSome && (bsl key).isEmpty) = false)
     (hnd : needed cfg fs keys = true)
     (hext : isPartialExt (keyPath cfg key) = true) (hn : fileName (keyPath cfg key) = some n)
+    (hnf : namesFile fs cfg.sourceDir (keyPath cfg key) = false)
     (hord : ord.Nodup) (hmem : sn ++ rel ∈ ord) (hc : IsCandidate fs cfg keys sn rel n)
     (huniq : ∀ rel', sn ++ rel' ∈ ord → IsCandidate fs cfg keys sn rel' n → rel' = rel)
     (hfile : fs.resolve (render ⟨true, sn ++ rel⟩) = some (sn ++ rel, .file)) :
     resolveKeyJ cfg fs (needed cfg fs keys) (fileToPaths fs ord cfg keys) key =
       .ok (some (render ⟨true, sn ++ rel⟩, join rel)) := by
   have hne : rel ≠ [] := by intro e; have := hc.1; simp [e] at this
-  have hm := C11_partial_unique_candidate cfg fs ord keys _ sn key n rel hS hres hroot hnd hext hn
+  have hm := C11_partial_unique_candidate cfg fs ord keys _ sn key n rel hS hres hroot hnd hext hn hnf
     hord hmem hc huniq
   unfold mappedPath at hm
   unfold resolveKeyJ
